@@ -360,7 +360,8 @@ pub fn generate(ctx: &mut Ctx) {
     }
     // header field corruption: type, version, length
     for b in &encoded {
-        if b.len() > 400 { continue; }
+        // (a PDU the library wrote short is reported by the `wr` operation above; nothing to corrupt here)
+        if b.len() > 400 || b.len() < 12 { continue; }
         for ty in 0..=12u8 { let mut c = b.clone(); c[1] = ty; ctx.case(&format!("rd {}", hex(&c))); }
         for v in [0u8, 1, 2, 3, 128, 255] { let mut c = b.clone(); c[0] = v; ctx.case(&format!("rd {}", hex(&c))); }
         let len = u32::from_be_bytes([b[4], b[5], b[6], b[7]]);
